@@ -53,6 +53,23 @@ def analyse(project, roles: MarshalRoles = None):
             return "byte"
         if isinstance(a, ast.Constant) and a.value is None:
             return "none"
+        if isinstance(a, ast.Name):
+            # a fresh copy of the look-ahead variable (`sent = lookahead; processor.send(sent)`): every definition of the
+            # argument that reaches the send is such a copy, and the look-ahead variable was not re-bound in between
+            node = cfg.node_of(call)
+            if node is not None:
+                defs = rd.reaching(node, a.id)
+                ok = bool(defs)
+                for d in defs:
+                    rec = rd.defs[d.id].get(a.id)
+                    if not (rec and rec[0] == "expr" and isinstance(rec[1], ast.Name) and rec[1].id == byte):
+                        ok = False
+                        break
+                    if {x.id for x in rd.reaching(node, byte)} != {x.id for x in rd.reaching(d, byte)}:
+                        ok = False
+                        break
+                if ok:
+                    return "byte"
         return "other"
 
     def raised_class(node):
